@@ -21,7 +21,7 @@ import (
 var Props = []string{"C01", "C02", "C03", "C04", "C05", "C07", "C09", "C11", "C12", "C13", "C14", "C15", "C16", "C17", "C18", "C19", "C21", "C22", "C23", "C24", "C43", "C48"}
 
 var rules = map[string]string{
-	"C01": "generated transaction histories (all contracts, hostile values/nonces/signers) executed through the real Chain.UpdateState from a real genesis; after every txn the balances of ALL account leaves of the state trie are summed; distinct = (operation, outcome, mutation) triples",
+	"C01": "generated transaction histories (all contracts, hostile values/nonces/signers) executed through the real Chain.UpdateState from a real genesis (GenerateGenesisBlock/mustInitGBState over four shapes of the initial distribution, each summed against the maximum supply); after every txn the balances of ALL account leaves of the state trie are summed; distinct = (operation, outcome, mutation) triples",
 	"C02": "every chargeable-failed contract call: full-trie diff must be {sender, miner-contract wallet} with exactly fee/nonce, events exactly one error event; distinct = (function, error message class) pairs = distinct failure sites reached",
 	"C03": "per-sender reference nonce map vs. accept/reject of every submitted txn incl. replays of applied txns, gaps, duplicates, 0/negative/huge; distinct = (operation, nonce relation, outcome, replay) tuples",
 	"C04": "per-txn balance deltas of all accounts classified as sender (<= value+fee) / called contract wallet / signed transfer / free-storage grant; anything else is a violation; distinct = (function, debit kind, outcome)",
@@ -170,6 +170,7 @@ func Main(args []string) int {
 // would otherwise leave a quiet but empty check).
 var schistMins = map[string]map[string]int64{
 	"C48": {"gf_stored_values_judged": 300},
+	"C01": {"genesis_supply_checked": 4},
 }
 
 func firstPanicLine(log string) string {
@@ -214,9 +215,15 @@ func childMain(prop, tier string, idx, nh, nl int) (code int) {
 	if prop == "C22" && idx%2 == 1 {
 		wo.NumSharders, wo.NumMiners = 5, 6 // more recipients than a tiny fee part has units
 	}
+	if prop == "C01" {
+		wo.GenesisShape = idx % 4 // the genesis distribution comes in several shapes (clients under one, all, the last contract entry)
+	}
 	w := world.New(wo)
 	defer w.Close()
 	runs := map[string]*mon.Run{prop: run}
+	if prop == "C01" {
+		genesisSupplyC01(w, o, run, wo.GenesisShape)
+	}
 	ops := catalogue()
 	wts := weights(ops, prop)
 	mons := allMonitors()
